@@ -17,7 +17,7 @@ META = {
                    'returned eigentensor is the frame applied to its eigenvector, so x^H A x == v^H micro_op v, x^H B x == v^H micro_gevp v and the '
                    'eigenvalue is the generalised Rayleigh quotient. (IV) best-so-far bookkeeping over sweeps: a further sweep never moves the reported '
                    'eigenvalue away from sigma. power_method: system handed to sle.als, normalisation, reported Rayleigh quotient x^H A x / x^H B x.',
-    'bounds': {'quick': 'orders 2-3, mode size 2, operator/guess ranks {1,2}, real and complex, 0-1 deflation tensors, standard and generalised, number_ev 1-2, '
+    'bounds': {'quick': 'orders 2-3, mode size 2, operator/guess ranks {1,2}, real and complex, 0-3 deflation tensors, standard and generalised, number_ev 1-2, '
                         'repeats 1-2, orderings of |lambda - sigma|: all permutations for micro size <= 3, three fixed ones above',
                'thorough': 'adds order 3 rank-2 complex with deflation, 2 deflation tensors, more orderings'},
     'outside': ['power_method with complex data AND a generalised problem (complex rational terms: solver does not finish) -- complex standard and real generalised are decided', 'lambda <= lambda_max, exactness at maximal ranks, convergence of the inverse iteration (Courant-Fischer / power-method theory on top of the '
@@ -120,6 +120,11 @@ def _grid(tier):
                         nperm = 1 if solver != 'eig' else (2 if tier == 'quick' else 4)
                         for perm in range(nperm):
                             out.append({'shape': s, 'cplx': cplx, 'gevp': gevp, 'nprev': nprev, 'solver': solver, 'number_ev': 1, 'repeats': 1, 'perm': perm})
+    if tier == 'quick':                 # two (and three) deflation tensors: each rank-one term must use its OWN environments
+        for s in shapes[:2]:
+            for cplx in (False, True):
+                out.append({'shape': s, 'cplx': cplx, 'gevp': False, 'nprev': 2, 'solver': 'eig', 'number_ev': 1, 'repeats': 1, 'perm': 0})
+        out.append({'shape': shapes[0], 'cplx': False, 'gevp': True, 'nprev': 3, 'solver': 'eig', 'number_ev': 1, 'repeats': 1, 'perm': 1})
     # several eigenpairs / two sweeps (bookkeeping)
     for s in shapes[:3]:
         out.append({'shape': s, 'cplx': False, 'gevp': False, 'nprev': 0, 'solver': 'eig', 'number_ev': 2, 'repeats': 1, 'perm': 1})
